@@ -303,6 +303,8 @@ class AbstractOnlineSpecification(AbstractSpecification):
 
     # forwarding pastify
     def pastify(self):
+        # the operators are built again, for the pastified formula, by the next update() or reset()
+        self.set_ast_flag = False
         if isinstance(self.online_interpreter, DiscreteTimeInterpreter) and hasattr(self.ast, 'U'):
             # one sample (the look-ahead of next) lasts one sampling period; express it in the default unit
             period = self.online_interpreter.get_exact_sampling_period() / Fraction(self.ast.U[self.ast.unit])
